@@ -309,6 +309,132 @@ fn eval_geno(c: &GenoCase, scratch: Option<&Scratch>) -> Vec<Viol> {
     viols
 }
 
+/// Statistic `stat` evaluated on a spectrum of shape `first` and then on one of shape `second` on a
+/// newly spawned thread: the second value must be the reference value (tables kept between calls).
+fn stat_history(stat: &'static str, first: &[usize], second: &[usize]) -> Option<Viol> {
+    let a = RefArray::from_fn(first, |f, _| ((f * 5) % 7 + 1) as f64);
+    let b = RefArray::from_fn(second, |f, _| ((f * 3) % 11 + 2) as f64);
+    let expect = ref_stat(stat, &b);
+    let (sa, sb) = (scs_from_ref(&a), scs_from_ref(&b));
+    let got = std::thread::spawn(move || {
+        catch(|| {
+            let _ = real_stat(stat, &sa);
+            real_stat(stat, &sb)
+        })
+    })
+    .join()
+    .unwrap_or(Err("thread died".into()));
+    match got {
+        Ok(Ok(v)) if close_stat(v, expect, 1.0) => None,
+        other => Some((
+            format!("C06|lib|{stat}-depends-on-previous-call|{}", shape_class(second)),
+            format!("{stat} on shape {second:?} right after {stat} on shape {first:?} on the same thread: {other:?}, definition gives {expect:e}"),
+            J::obj([("kind", J::s("c06-history")), ("stat", J::s(stat)), ("first", J::usizes(first)), ("shape", J::usizes(second))]),
+        )),
+    }
+}
+
+/// The spectra of the report-format grid.
+fn format_spectrum(which: usize) -> RefArray {
+    match which {
+        0 => RefArray::from_fn(&[6], |f, _| [7.0, 3.0, 5.0, 1.0, 4.0, 2.0][f]),
+        _ => RefArray::from_fn(&[3, 3], |f, _| [9.0, 2.0, 3.0, 4.0, 5.0, 1.0, 7.0, 8.0, 6.0][f]),
+    }
+}
+
+const FORMAT_STATS: [&[&str]; 2] = [&["sum", "s", "pi", "theta", "d-tajima", "d-fu-li"], &["sum", "s", "f2", "fst", "pi-xy", "king", "r0", "r1"]];
+
+/// The header line of `sfs stat -s <one statistic> -H` for every statistic of the grid.
+fn single_stat_headers(scratch: &Scratch) -> [Vec<String>; 2] {
+    let one = |which: usize| -> Vec<String> {
+        let bytes = crate::subject::text_of(&format_spectrum(which)).into_bytes();
+        FORMAT_STATS[which].iter().map(|name| run_sfs(&["stat", "-s", name, "-H"], Stdin::Bytes(&bytes), scratch).stdout_str().lines().next().unwrap_or("").to_string()).collect()
+    };
+    [one(0), one(1)]
+}
+
+/// `sfs stat` with a list of statistics in a given order, with or without header, a delimiter, one or
+/// per-statistic precisions, the spectrum as text or npy: the i-th reported value must be the i-th
+/// requested statistic at its precision, and the header the names of the single-statistic runs.
+fn eval_format(which: usize, list: &[usize], header: bool, delim: usize, prec: usize, npy_in: bool, single_headers: Option<&[Vec<String>; 2]>, scratch: &Scratch) -> Option<Viol> {
+    let x = format_spectrum(which);
+    let names: Vec<&str> = list.iter().map(|&i| FORMAT_STATS[which][i]).collect();
+    let delims = [",", ";", "\t", "\u{2192}"];
+    let d = delims[delim];
+    // precisions: 0 = default (6), 1 = one value for all, 2 = one per statistic (i + 1 decimals for the i-th)
+    let precs: Vec<usize> = match prec {
+        0 => vec![6; names.len()],
+        1 => vec![3; names.len()],
+        2 => (0..names.len()).map(|i| (i * 2 + 1) % 9).collect(),
+        _ => vec![18; names.len()],
+    };
+    let joined = names.join(",");
+    let pj = match prec {
+        0 => String::new(),
+        1 => "3".to_string(),
+        2 => precs.iter().map(|p| p.to_string()).collect::<Vec<_>>().join(","),
+        _ => "18".to_string(),
+    };
+    let mut a: Vec<&str> = vec!["stat", "-s", &joined];
+    if header {
+        a.push("-H");
+    }
+    if delim != 0 {
+        a.extend(["-d", d]);
+    }
+    if prec != 0 {
+        a.extend(["-p", &pj]);
+    }
+    let bytes = if npy_in {
+        let data: Vec<u8> = x.data.iter().flat_map(|v| v.to_le_bytes()).collect();
+        crate::npyref::synth(1, &crate::npyref::dict_text("<f8", false, &x.shape, &crate::npyref::Spelling::numpy()), &data)
+    } else {
+        crate::subject::text_of(&x).into_bytes()
+    };
+    let o = run_sfs(&a, Stdin::Bytes(&bytes), scratch);
+    let case = || J::obj([("kind", J::s("c06-format")), ("which", J::u(which)), ("list", J::usizes(list)), ("header", J::Bool(header)), ("delimiter", J::u(delim)), ("precision", J::u(prec)), ("npy_in", J::Bool(npy_in))]);
+    let fail = |w: String| Some((format!("C06|cli|report-format|{}{}", if header { "header," } else { "" }, ["default-precision", "one-precision", "precision-list", "precision-18"][prec]), format!("sfs {} on shape {:?} ({}): {w}", a.join(" "), x.shape, if npy_in { "npy" } else { "text" }), case()));
+    if !o.ok() {
+        return fail(format!("{} {}", o.status_str(), o.stderr_str().trim()));
+    }
+    let out = o.stdout_str();
+    let lines: Vec<&str> = out.lines().collect();
+    if lines.len() != 1 + header as usize {
+        return fail(format!("{} lines of output: {out:?}", lines.len()));
+    }
+    let toks: Vec<&str> = lines[lines.len() - 1].split(d).collect();
+    if toks.len() != names.len() {
+        return fail(format!("{} values for {} statistics: {out:?}", toks.len(), names.len()));
+    }
+    for (i, (name, tok)) in names.iter().zip(&toks).enumerate() {
+        let r = ref_stat(name, &x);
+        let decimals = tok.split('.').nth(1).map_or(0, |t| t.len());
+        let v: f64 = tok.parse().unwrap_or(f64::NAN);
+        let numeric = tok.chars().any(|c| c.is_ascii_digit());
+        let value_ok = if r.is_nan() { v.is_nan() } else if r.is_infinite() { v == r } else { (v - r).abs() <= 0.5000001 * 10f64.powi(-(precs[i] as i32)) + 1e-9 * r.abs() };
+        if !value_ok || (numeric && r.is_finite() && decimals != precs[i]) {
+            return fail(format!("value {i} ({name}) is printed as {tok:?}, the definition gives {r:e} and the precision is {}: {out:?}", precs[i]));
+        }
+    }
+    if header {
+        // the header of a list is the list of the headers of its members
+        let computed;
+        let table = match single_headers {
+            Some(t) => t,
+            None => {
+                computed = single_stat_headers(scratch);
+                &computed
+            }
+        };
+        let expect_names: Vec<String> = list.iter().map(|&i| table[which][i].clone()).collect();
+        let expect = expect_names.join(d);
+        if lines[0] != expect {
+            return fail(format!("header {:?}, the single-statistic headers give {expect:?}", lines[0]));
+        }
+    }
+    None
+}
+
 pub fn run(tier: Tier) -> i32 {
     let mut rep = Report::new("C06", tier, "exploration");
     rep.rule = "(a) coefficient level: each linear statistic (sum, S, pi, theta, pi_xy, f2, f3, f4) on every basis spectrum (a linear functional is decided by its values on the basis) and each ratio statistic (Fst, KING, R0, R1) on every one- and two-cell spectrum of every admissible shape with lengths 2..6 (3..6 for Fst), plus ramps; the 1-D estimators (pi, theta, Tajima's D, Fu & Li's D, S, sum) for every n = 3..400 on basis / two-cell / neutral / skewed spectra against formulas typed from the papers. (b) genotype level: every combination of population sizes in {1,2,3}^d, d = 1..3, and {1,2}^4, call set = every complete genotype row with a pattern-dependent multiplicity; statistics from the real create path (library) and from `sfs create | sfs stat -s <all admissible> --precision 12` (binary) against direct computation from the genotypes (pairwise differences by brute force, site means of frequency products, ratio of sums, genotype-pair counts). Non-trivial = unequal sizes, or a statistic without a test in the repository (f3, f4, Fu-Li, KING, R0, R1).".into();
@@ -466,6 +592,122 @@ pub fn run(tier: Tier) -> i32 {
         exhaustive: true,
         extra: vec![],
     });
+    // shape histories: the same statistic on two spectra in a row on one thread, for every ordered pair
+    // of shapes of equal dimension (among them pairs with the same number of cells)
+    {
+        let groups: Vec<(Vec<&'static str>, Vec<Vec<usize>>)> = vec![
+            (vec!["f2", "fst", "pi-xy"], vec![vec![3, 5], vec![5, 3], vec![2, 6], vec![6, 2], vec![3, 4], vec![4, 3], vec![3, 3], vec![5, 5]]),
+            (vec!["king", "r0", "r1"], vec![vec![3, 3]]),
+            (vec!["f3"], vec![vec![2, 3, 4], vec![4, 3, 2], vec![3, 2, 4], vec![2, 2, 6], vec![3, 3, 3]]),
+            (vec!["f4"], vec![vec![2, 3, 2, 4], vec![4, 2, 3, 2], vec![2, 2, 3, 4], vec![3, 3, 3, 3]]),
+            (vec!["pi", "theta", "d-tajima", "d-fu-li"], vec![vec![6], vec![9], vec![12], vec![7]]),
+        ];
+        let mut hj: Vec<(&'static str, Vec<usize>, Vec<usize>)> = Vec::new();
+        for (stats, shapes) in &groups {
+            for st in stats {
+                for a in shapes {
+                    for b in shapes {
+                        hj.push((*st, a.clone(), b.clone()));
+                    }
+                }
+            }
+        }
+        // and two different statistics in a row on the same spectrum (tables keyed by size alone)
+        let mut cross: Vec<(&'static str, &'static str, Vec<usize>)> = Vec::new();
+        for (stats, shapes) in &groups {
+            for s1 in stats {
+                for s2 in stats {
+                    if s1 != s2 {
+                        for sh in shapes {
+                            cross.push((*s1, *s2, sh.clone()));
+                        }
+                    }
+                }
+            }
+        }
+        let res = par_map(hj.len(), |i| stat_history(hj[i].0, &hj[i].1, &hj[i].2));
+        for v in res.into_iter().flatten() {
+            rep.violation(v.0, v.1, v.2);
+        }
+        let res = par_map(cross.len(), |i| {
+            let (s1, s2, sh) = (cross[i].0, cross[i].1, cross[i].2.clone());
+            let x = RefArray::from_fn(&sh, |f, _| ((f * 5) % 7 + 1) as f64);
+            let expect = ref_stat(s2, &x);
+            let sx = scs_from_ref(&x);
+            let got = std::thread::spawn(move || catch(|| { let _ = real_stat(s1, &sx); real_stat(s2, &sx) })).join().unwrap_or(Err("thread died".into()));
+            match got {
+                Ok(Ok(v)) if close_stat(v, expect, 1.0) => None,
+                other => Some((
+                    format!("C06|lib|{s2}-depends-on-previous-statistic"),
+                    format!("{s2} right after {s1} on the same spectrum of shape {sh:?} on one thread: {other:?}, definition gives {expect:e}"),
+                    J::obj([("kind", J::s("c06-cross")), ("first_stat", J::s(s1)), ("stat", J::s(s2)), ("shape", J::usizes(&sh))]),
+                )),
+            }
+        });
+        for v in res.into_iter().flatten() {
+            rep.violation(v.0, v.1, v.2);
+        }
+        rep.transitions += 2 * (hj.len() + cross.len()) as u64;
+        rep.part(Part {
+            name: "lib: statistic after statistic (call histories of length 2)".into(),
+            evaluations: (hj.len() + cross.len()) as u64,
+            nontrivial: (hj.len() + cross.len()) as u64,
+            note: format!("{} ordered pairs (statistic on shape A, then on shape B) over shapes of equal dimension, and {} ordered pairs of different statistics on one spectrum, each on a newly spawned thread: the second value equals the definition", hj.len(), cross.len()),
+            exhaustive: true,
+            extra: vec![],
+        });
+    }
+    // report format: every ordered list of up to three statistics x header x delimiter x precision
+    // form x input format - the i-th value is the i-th statistic asked for, whatever else is asked
+    {
+        let mut fj: Vec<(usize, Vec<usize>, bool, usize, usize, bool)> = Vec::new();
+        for which in 0..2usize {
+            let n = FORMAT_STATS[which].len();
+            let mut lists: Vec<Vec<usize>> = Vec::new();
+            for a in 0..n {
+                lists.push(vec![a]);
+                for b in 0..n {
+                    lists.push(vec![a, b]);
+                    if tier.thorough() || (a + 2 * b) % 3 == 0 {
+                        for c in 0..n {
+                            if c != a || c != b {
+                                lists.push(vec![a, b, c]);
+                            }
+                        }
+                    }
+                }
+            }
+            lists.push((0..n).collect());
+            lists.push((0..n).rev().collect());
+            for l in lists {
+                for header in [false, true] {
+                    for delim in 0..4usize {
+                        for prec in 0..4usize {
+                            for npy_in in [false, true] {
+                                if !tier.thorough() && npy_in && (delim == 1 || delim == 2) {
+                                    continue;
+                                }
+                                fj.push((which, l.clone(), header, delim, prec, npy_in));
+                            }
+                        }
+                    }
+                }
+            }
+        }
+        let single = single_stat_headers(&scratch);
+        let res = par_map(fj.len(), |i| eval_format(fj[i].0, &fj[i].1, fj[i].2, fj[i].3, fj[i].4, fj[i].5, Some(&single), &scratch));
+        for v in res.into_iter().flatten() {
+            rep.violation(v.0, v.1, v.2);
+        }
+        rep.part(Part {
+            name: "cli: report format (statistic lists x header x delimiter x precisions x input format)".into(),
+            evaluations: fj.len() as u64,
+            nontrivial: fj.len() as u64,
+            note: "a 6-entry and a 3x3 spectrum; every ordered list of one and two statistics (repeats included), the ordered triples of a third of the pairs (thorough: all), and all statistics in both orders x {no header, -H} x delimiter {default, ';', tab, a 3-byte arrow} x precision {default, one value, one per statistic, 18 decimals} x input {text, npy}: value i is statistic i at precision i, the header is the join of the single-statistic headers".into(),
+            exhaustive: true,
+            extra: vec![],
+        });
+    }
     rep.sample(J::obj([
         ("population_sizes", J::usizes(&[1, 3])),
         ("argv", J::s("sfs create -s s0=p0,s1=p1,s2=p1,s3=p1 | sfs stat -s f2,fst,pi-xy,s,sum --precision 12 -H")),
@@ -491,6 +733,16 @@ pub fn replay(case: &J) -> Option<Vec<String>> {
             let mut v = eval_geno(&c, None);
             v.extend(eval_geno(&c, Some(&scratch)));
             Some(v.into_iter().map(|(k, w, _)| format!("{k} :: {w}")).collect())
+        }
+        "c06-format" => {
+            let scratch = Scratch::new("c06r");
+            let b = |k: &str| matches!(case.get(k), Some(J::Bool(true)));
+            Some(
+                eval_format(case.get("which")?.as_i64()? as usize, &case.get("list")?.as_usizes()?, b("header"), case.get("delimiter")?.as_i64()? as usize, case.get("precision")?.as_i64()? as usize, b("npy_in"), None, &scratch)
+                    .into_iter()
+                    .map(|(k, w, _)| format!("{k} :: {w}"))
+                    .collect(),
+            )
         }
         "c06-spectrum" => {
             let shape = case.get("shape")?.as_usizes()?;
